@@ -91,6 +91,15 @@ CLAIMS = {
              "exceed the cached smallest; recorded and returned values are the sketch's estimate; cached size/smallest are "
              "len(table)/table minimum. Does not decide tie-breaking or the relation of estimates to true counts.",
         design_ref="DESIGN.md section 4 C17, E8"),
+    "C05": dict(
+        technique="codec agreement: writer emission lists vs reader slot-to-field must-assign (label flow through full inlining), intervals for the sentinel",
+        text="Structural part: for the five formats the writer's emission list is extracted from export and compared with every load "
+             "entry point (path, file object, bytes, hex; 20+ readers): same struct format, every field packed at slot i is "
+             "must-assigned from slot i on every reader path, payload taken from the input data with the allocation's typecode and "
+             "itemsize x length, expanding frames consumed with an exactly advancing cursor, __bytes__/path export delegate to one "
+             "body, the cuckoo empty-slot marker is outside the fingerprint interval, inherited alternate constructors build cls. "
+             "Query-by-query equality and byte-exact re-export are consequences, not checked facts.",
+        design_ref="DESIGN.md section 4 C05, E6"),
 }
 
 NA_DEFAULT = "check not built yet (build phase in progress; DESIGN.md section 4 gives the planned rule)"
